@@ -36,7 +36,7 @@ Inductive pfsel := PsOk | PsNoParse | PsNoPlan.
 (* a row of the statement as the row loop of the endpoint sees it *)
 Inductive pfrow :=
 | PrOk                     (* scans; the callback succeeds *)
-| PrNull                   (* a cell rows.Scan cannot convert *)
+| PrNull                   (* a NULL cell: rows.Scan cannot convert it (except into the []byte of SelectMergeProfile) *)
 | PrShortType              (* type_id with fewer than three parts: ProfileTypes indexes [1], [2] (panic); Series: error *)
 | PrBadPayload             (* SelectMergeProfile: a payload proto.Unmarshal or the merger refuses *)
 | PrTree (rows : list ProfTree.row) (fs : list (N * Z)).   (* getTree: the `tree` and `functions` arrays *)
@@ -61,7 +61,7 @@ Inductive rowres := RwOk | RwErr | RwPanic.
 
 Definition on_row (ep : pfep) (r : pfrow) : rowres :=
   match r with
-  | PrNull => RwErr
+  | PrNull => match ep with EpMergeProfile => RwOk (* database/sql stores NULL into a []byte as nil: an empty payload *) | _ => RwErr end
   | PrShortType => match ep with EpProfileTypes => RwPanic | EpSeries => RwErr | _ => RwOk end
   | PrBadPayload => match ep with EpMergeProfile => RwErr | _ => RwOk end
   | _ => RwOk
